@@ -14,6 +14,7 @@ package middleware
 //@ modifies elems(byte)
 //@ ensures ok ==> len(auth) >= 6 && eqFold(auth[0:6], "Basic ") && b64ok(auth[6:len(auth)])
 //@ ensures ok ==> b64dec(auth[6:len(auth)]) == username + ":" + password && !contains(username, ":")
+//@ ensures ok ==> cutFound(b64dec(auth[6:len(auth)]), ":") && username == cutBefore(b64dec(auth[6:len(auth)]), ":") && password == cutAfter(b64dec(auth[6:len(auth)]), ":")
 //@ ensures !ok ==> username == "" && password == ""
 
 //@ func (*BasicAuth).BasicAuth
@@ -21,9 +22,11 @@ package middleware
 //@ requires ba != nil && r != nil && r.Header != nil
 //@ modifies elems(byte)
 //@ ensures ok ==> len(hdrFirst(r.Header, canon(ba.header))) >= 6 && b64dec(hdrFirst(r.Header, canon(ba.header))[6:len(hdrFirst(r.Header, canon(ba.header)))]) == username + ":" + password
+//@ ensures ok ==> cutFound(authText(r.Header, canon(ba.header)), ":") && username == cutBefore(authText(r.Header, canon(ba.header)), ":") && password == cutAfter(authText(r.Header, canon(ba.header)), ":")
 //@ ensures hdrFirst(r.Header, canon(ba.header)) == "" ==> !ok
 
 //@ pred hdrFirst(h http.Header, k string) = ite((k in h) && len(h[k]) > 0, h[k][0], "")
+//@ pred authText(h http.Header, k string) = b64dec(hdrFirst(h, k)[6:len(hdrFirst(h, k))])
 
 // L4.3: authenticated iff the header parses and user and password are, byte
 // for byte, the configured ones.
@@ -31,5 +34,6 @@ package middleware
 //@ property C04
 //@ requires ba != nil && r != nil && r.Header != nil
 //@ modifies elems(byte)
-//@ ensures result ==> len(hdrFirst(r.Header, canon(ba.header))) >= 6 && exists u string, p string :: b64dec(hdrFirst(r.Header, canon(ba.header))[6:len(hdrFirst(r.Header, canon(ba.header)))]) == u + ":" + p && sameBytes(u, expectedUser) && sameBytes(p, expectedPass)
+// (the decoded credentials text; user and password are what precedes and follows its first colon)
+//@ ensures result ==> len(hdrFirst(r.Header, canon(ba.header))) >= 6 && cutFound(authText(r.Header, canon(ba.header)), ":") && authText(r.Header, canon(ba.header)) == cutBefore(authText(r.Header, canon(ba.header)), ":") + ":" + cutAfter(authText(r.Header, canon(ba.header)), ":") && sameBytes(cutBefore(authText(r.Header, canon(ba.header)), ":"), expectedUser) && sameBytes(cutAfter(authText(r.Header, canon(ba.header)), ":"), expectedPass)
 //@ ensures hdrFirst(r.Header, canon(ba.header)) == "" ==> !result
